@@ -172,6 +172,7 @@ static failure_t* record_failure(trace_t* tr, int p, int d, int e) {
 // ---- one pass -------------------------------------------------------------
 typedef struct {
   long execs, nontrivial, states, ok, inconclusive;
+  uint64_t user_cases;
   uint64_t steps;
   long maxcp;
   int nobs;
@@ -239,6 +240,7 @@ static void run_pass(pass_t* ps) {
     trace_t* tr = &slots[w].tr;
     ps->execs++;
     ps->steps += tr->steps;
+    ps->user_cases += tr->user_cases;
     if ((long)tr->ncp > ps->maxcp) ps->maxcp = tr->ncp;
     if (tr->conflicts) ps->nontrivial++;
     ps->states += (long)tr->ncp - pf.len + 1;
@@ -477,7 +479,7 @@ int main(int argc, char** argv) {
     fprintf(o, "],\"P\":%d,\"D\":%d,\"E\":%d,\"completed_P\":%d,\"complete\":%s,\"closed\":%s,\"passes\":%d,", targetP, D, E, completedP, complete ? "true" : "false", closed ? "true" : "false", passes);
     fprintf(o, "\"execs\":%ld,\"states\":%ld,\"transitions\":%lu,\"nontrivial\":%ld,\"last_pass_nontrivial\":%ld,\"last_pass_execs\":%ld,\"last_pass_ok\":%ld,\"inconclusive\":%ld,\"outcomes\":%d,\"max_cp\":%ld,\"sites\":%d,\"threads\":%u,",
             tot_execs, tot_states, (unsigned long)tot_steps, tot_nontrivial, last->nontrivial, last->execs, last->ok, last->inconclusive, last->nobs, last->maxcp, count_sites(), slots[0].tr.maxthreads);
-    fprintf(o, "\"engine_error\":%s,\"unconfirmed\":%d,\"wall_s\":%.2f,\"samples\":[", engine_error ? "true" : "false", unconfirmed, wall);
+    fprintf(o, "\"user_cases\":%lu,\"engine_error\":%s,\"unconfirmed\":%d,\"wall_s\":%.2f,\"samples\":[", (unsigned long)last->user_cases, engine_error ? "true" : "false", unconfirmed, wall);
     for (int i = 0; i < last->nsamples; i++) { if (i) fputc(',', o); json_str(o, last->samples[i]); }
     fprintf(o, "],\"failures\":[");
     int first = 1;
